@@ -135,11 +135,7 @@ Theorem C19_delay_schedule : forall c c0, (0 < d_den c)%Z -> (d_den c <= d_num c
   forall j r, d_init c = (c0 * pw (d_den c) (j + r))%Z ->
   sched repaired c (S j) = Z.min (c0 * pw (d_den c) r * pw (d_num c) j) (d_max c)
   /\ ((c0 * pw (d_den c) r * pw (d_num c) j) * pw (d_den c) j = d_init c * pw (d_num c) j)%Z.
-Proof.
-  exact (fun c c0 H1 H2 H3 H4 j r H5 =>
-    conj (sched_closed c c0 H1 H2 H3 H4 j r H5)
-         (eq_trans (sched_closed_is_power c0 (d_den c) (d_num c) j r) (f_equal (fun x => (x * pw (d_num c) j)%Z) (eq_sym H5)))).
-Qed.
+Proof. exact sched_closed_full. Qed.
 (** in general (products rounded down to whole ns at every step): within [0, Max], never above
     Initial * (num/den)^j, never shrinking *)
 Theorem C19_delay_schedule_bounds : forall c, (0 < d_den c)%Z -> (d_den c <= d_num c)%Z -> (0 <= d_init c)%Z -> (d_init c <= d_max c)%Z ->
@@ -177,11 +173,7 @@ Proof. exact effect_ends_with_call_refuted. Qed.
 Theorem C19_chain_result : forall v mws, forallb is_simple mws = true -> forall s w,
   w_calls (fst (stack v mws (scripted s) w)) = w_calls (fst (scripted s w))
   /\ rkind (snd (stack v mws (scripted s) w)) = eff mws (rkind (snd (scripted s w))).
-Proof.
-  exact (fun v mws Hs s w =>
-    match stack_sim v mws Hs _ _ (sim_scripted s) w w (conj eq_refl eq_refl) with
-    | conj (conj A _) B => conj A B end).
-Qed.
+Proof. exact chain_result. Qed.
 
 (** composition with Retry: same number of attempts (and kind of result) as the bare Retry *)
 Theorem C19_composes_with_retry : forall maxr inner s w, forallb is_simple inner = true ->
